@@ -33,7 +33,8 @@ zix_bump_malloc(ZixAllocator* const allocator, const size_t size)
      What that means is deliberately vague to accommodate diverse platforms,
      but sizeof(uintmax_t) is more than enough on all the common ones. */
 
-  const size_t real_size = round_up_multiple(size, min_alignment);
+  // A zero-size block still takes some space, so that it has its own address
+  const size_t real_size = round_up_multiple(size ? size : 1U, min_alignment);
   if (real_size < size || state->top > state->capacity ||
       real_size > state->capacity - state->top) {
     return NULL; // Rounded size wrapped around, or doesn't fit in the space left
@@ -75,7 +76,7 @@ zix_bump_realloc(ZixAllocator* const allocator,
   }
 
   // Keep the top aligned, and compare with the capacity without overflow
-  const size_t real_size = round_up_multiple(size, min_alignment);
+  const size_t real_size = round_up_multiple(size ? size : 1U, min_alignment);
   if (real_size < size || state->last > state->capacity ||
       real_size > state->capacity - state->last) {
     return NULL;
